@@ -17,28 +17,28 @@ Local Open Scope N_scope.
 
 (* hash_script_data(redeemers, cost_models, datums) hashes the ledger's preimage over the witness set emitted for
    the same redeemers and datums (field 5 as written or A0, field 4 as written or nothing, canonical language
-   views of exactly the languages of the table), for ALL redeemers, datums and cost models outside
-     - helper_out_of_scope (no redeemers together with the legacy array container or with datums plus a non-empty
-       cost-model table: no valid transaction; the helper then follows the CDDL note A0 | datums | A0),
+   views of the languages in use: those of the table, none when there are no redeemers), for ALL redeemers (any
+   container form), datums and cost models outside
+     - helper_out_of_scope: neither redeemers nor datums (the ledger then has no script_data_hash to compare with),
      - the classes of the two repaired defects, needed only while the corresponding switch of ScriptData.v is `true`. *)
 Theorem C09_preimage_spec : forall (r : redeemers) (cm : costmdls) (d : option plutus_list),
-  helper_out_of_scope r cm d = false ->
+  helper_out_of_scope r d = false ->
   (set_len_counts_duplicates = true -> known_dup_definite d = false) ->
   (empty_datums_hashed = true -> known_empty_datums d = false) ->
   let fs := ws_fields (helper_witness_set r d) in
   script_data_preimage r cm d =
-  ledger_preimage (assoc_field 5 fs) (assoc_field 4 fs) (spec_views (cm_keys cm) cm).
+  ledger_preimage (assoc_field 5 fs) (assoc_field 4 fs) (spec_views (helper_langs r cm) cm).
 Proof. exact preimage_spec. Qed.
 Print Assumptions C09_preimage_spec.
 
 (* the same for both values of both switches (the statement that survives a repair or a regression of the code) *)
 Theorem C09_preimage_spec_gen : forall (count_dups empty_hashed : bool) (r : redeemers) (cm : costmdls) (d : option plutus_list),
-  helper_out_of_scope r cm d = false ->
+  helper_out_of_scope r d = false ->
   (count_dups = true -> known_dup_definite d = false) ->
   (empty_hashed = true -> known_empty_datums d = false) ->
   let fs := ws_fields (helper_witness_set r d) in
   script_data_preimage_gen count_dups empty_hashed r cm d =
-  ledger_preimage (assoc_field 5 fs) (assoc_field 4 fs) (spec_views (cm_keys cm) cm).
+  ledger_preimage (assoc_field 5 fs) (assoc_field 4 fs) (spec_views (helper_langs r cm) cm).
 Proof. exact preimage_spec_gen. Qed.
 Print Assumptions C09_preimage_spec_gen.
 
@@ -46,9 +46,9 @@ Print Assumptions C09_preimage_spec_gen.
    unrestricted statement is false (witnesses; they stay valid after the repair because they speak about `_gen true`) *)
 Theorem C09_preimage_refuted_dup_length :
   let fs := ws_fields (helper_witness_set one_redeemer (Some dup_witness_list)) in
-  helper_out_of_scope one_redeemer cm_empty (Some dup_witness_list) = false /\
+  helper_out_of_scope one_redeemer (Some dup_witness_list) = false /\
   script_data_preimage_gen true true one_redeemer cm_empty (Some dup_witness_list) <>
-  ledger_preimage (assoc_field 5 fs) (assoc_field 4 fs) (spec_views (cm_keys cm_empty) cm_empty) /\
+  ledger_preimage (assoc_field 5 fs) (assoc_field 4 fs) (spec_views (helper_langs one_redeemer cm_empty) cm_empty) /\
   serialize_as_set_gen true true dup_witness_list = [217; 1; 2; 130; 24; 42] /\
   assoc_field 4 fs = Some [217; 1; 2; 129; 24; 42].
 Proof. exact preimage_refuted_dup_length. Qed.
@@ -57,9 +57,9 @@ Print Assumptions C09_preimage_refuted_dup_length.
 Theorem C09_preimage_refuted_empty_datums :
   let d := Some pl_new in
   let fs := ws_fields (helper_witness_set one_redeemer d) in
-  helper_out_of_scope one_redeemer cm_empty d = false /\
+  helper_out_of_scope one_redeemer d = false /\
   script_data_preimage_gen false true one_redeemer cm_empty d <>
-  ledger_preimage (assoc_field 5 fs) (assoc_field 4 fs) (spec_views (cm_keys cm_empty) cm_empty) /\
+  ledger_preimage (assoc_field 5 fs) (assoc_field 4 fs) (spec_views (helper_langs one_redeemer cm_empty) cm_empty) /\
   assoc_field 4 fs = None.
 Proof. exact preimage_refuted_empty_datums. Qed.
 Print Assumptions C09_preimage_refuted_empty_datums.
@@ -137,6 +137,44 @@ Theorem C09_aux : forall (H : bytes -> bytes) (b : builder) (t : tx),
 Proof. exact aux_hash. Qed.
 Print Assumptions C09_aux.
 
+
+(* additions-only histories (what the property quantifies over: items are added, the hash is computed by the builder):
+   no premise about an earlier hash is needed — a stored hash always comes with script items *)
+Theorem C09_same_bytes_additive : forall (H : bytes -> bytes) (ops : list op) (cm : costmdls) (before : list op) (t : tx),
+  additive H builder_new ops = true ->
+  last_calc_rev (rev ops) = Some (cm, before) ->
+  let b0 := fst (run H builder_new (rev before)) in
+  let b := fst (run H builder_new ops) in
+  is_ok (calc_script_data_hash H b0 cm) = true ->
+  build_tx H b = Ok t ->
+  let fs := ws_fields (tx_witness_set t) in
+  tx_script_data_hash t = ledger_script_integrity H (assoc_field 5 fs) (assoc_field 4 fs) (langs_used b) cm.
+Proof. exact same_bytes_additive. Qed.
+Print Assumptions C09_same_bytes_additive.
+
+(* C09_aux, history form: for EVERY history (set_auxiliary_data with constructed or decoded values, set_metadata,
+   add_metadatum / add_json_metadatum*, remove_auxiliary_data, in any number and order, interleaved with anything) the
+   transaction carries the auxiliary data the setters left and the body's hash is the hash of its serialisation *)
+Theorem C09_aux_history : forall (H : bytes -> bytes) (ops : list op) (t : tx),
+  build_tx H (fst (run H builder_new ops)) = Ok t ->
+  tx_aux t = aux_of_history ops /\
+  tx_aux_data_hash t = ledger_aux_hash H (match aux_of_history ops with Some a => Some (enc_aux a) | None => None end).
+Proof. exact aux_history. Qed.
+Print Assumptions C09_aux_history.
+
+(* the format preference alone changes the emitted bytes, so a hash kept from before such a change would be wrong *)
+Theorem C09_aux_format_flag : forall md : list (N * bytes),
+  enc_aux (mk_aux (Some md) None None false) <> enc_aux (mk_aux (Some md) None None true).
+Proof. exact (format_flag_changes_bytes (fun b => b)). Qed.
+Print Assumptions C09_aux_format_flag.
+
+(* the three wire forms: what AuxiliaryData decodes from a form the serializer itself produces re-serialises to the
+   same bytes (hence set_auxiliary_data(from_bytes(b)) emits and hashes exactly b) *)
+Theorem C09_aux_wire_reencode : forall (w : aux_wire) (a : aux_data),
+  decode_wire w = Ok a -> wire_canonical w = true -> enc_aux a = enc_wire w.
+Proof. exact wire_reencode. Qed.
+Print Assumptions C09_aux_wire_reencode.
+
 (* outside the quantifier: a script item added AFTER calc_script_data_hash leaves a stale hash, and build_tx does not
    detect it (the hashed preimage differs from the ledger's preimage of the emitted witness set) *)
 Theorem C09_stale_hash_not_detected : forall H : bytes -> bytes,
@@ -190,6 +228,37 @@ Theorem C09_same_bytes_history_bytes : forall (H : bytes -> bytes) (ops : list o
 Proof. exact same_bytes_history_bytes. Qed.
 Print Assumptions C09_same_bytes_history_bytes.
 
+(* the serialised transaction [body, witness_set, true, aux/null] with ANY other body fields: slicing it (what the judge
+   does with the implementation's bytes) yields the model's two hashes, the structured witness-set fields 5 and 4 and
+   the auxiliary-data bytes; premises only about the opaque leaves (well-formed items, 32-byte hashes) *)
+Theorem C09_tx_view_sound : forall (other : list (N * bytes)) (t : tx),
+  other_ok other -> len (body_fields other t) < two64 ->
+  hash_ok (tx_script_data_hash t) -> hash_ok (tx_aux_data_hash t) ->
+  Forall (fun kv => item_wf (snd kv) = true) (ws_fields (tx_witness_set t)) ->
+  (match tx_aux t with Some a => item_wf (enc_aux a) = true | None => True end) ->
+  view_tx (tx_bytes other t) =
+  Ok (mk_tx_view (tx_script_data_hash t) (tx_aux_data_hash t)
+                 (assoc_field 5 (ws_fields (tx_witness_set t))) (assoc_field 4 (ws_fields (tx_witness_set t)))
+                 (match tx_aux t with Some a => Some (enc_aux a) | None => None end)).
+Proof. exact view_tx_sound. Qed.
+Print Assumptions C09_tx_view_sound.
+
+(* the judge of the correspondence run accepts the bytes of the model's own transaction on every history with a fresh
+   hash: it is the conjunction of C09_same_bytes_history and C09_aux read off the emitted bytes *)
+Theorem C09_judge_accepts_model : forall (H : bytes -> bytes) (ops : list op) (cm : costmdls) (before : list op)
+    (other : list (N * bytes)) (t : tx),
+  build_tx H (fst (run H builder_new ops)) = Ok t ->
+  last_calc_rev (rev ops) = Some (cm, before) ->
+  is_ok (calc_script_data_hash H (fst (run H builder_new (rev before))) cm) = true ->
+  has_script_items (fst (run H builder_new (rev before))) || is_none (b_script_data_hash (fst (run H builder_new (rev before)))) = true ->
+  other_ok other -> len (body_fields other t) < two64 ->
+  hash_ok (tx_script_data_hash t) -> hash_ok (tx_aux_data_hash t) ->
+  Forall (fun kv => item_wf (snd kv) = true) (ws_fields (tx_witness_set t)) ->
+  (match tx_aux t with Some a => item_wf (enc_aux a) = true | None => True end) ->
+  judge_builder H ops (tx_bytes other t) = Holds.
+Proof. exact judge_builder_accepts_model. Qed.
+Print Assumptions C09_judge_accepts_model.
+
 (* ---- non-vacuity ------------------------------------------------------------------------------------------- *)
 Definition ex_datum_a : pdata := mk_pdata 1 [24; 42].
 Definition ex_datum_b : pdata := mk_pdata 2 [159; 1; 2; 255].
@@ -220,7 +289,9 @@ Example C09_history_premises_satisfiable :
     assoc_field 4 (ws_fields (tx_witness_set t)) = Some [217; 1; 2; 159; 24; 42; 159; 1; 2; 255; 255].
 Proof. eexists _, _. repeat split; try reflexivity. vm_compute. discriminate. Qed.
 Example C09_helper_premises_satisfiable :
-  helper_out_of_scope one_redeemer ex_cm (Some (mk_plist [ex_datum_a; ex_datum_b] (Some true))) = false /\
+  helper_out_of_scope one_redeemer (Some (mk_plist [ex_datum_a; ex_datum_b] (Some true))) = false /\
+  (* datums without redeemers are inside the statement, whatever container form and table *)
+  helper_out_of_scope (mk_redeemers [] (Some CArray)) (Some (mk_plist [ex_datum_a] None)) = false /\
   known_dup_definite (Some (mk_plist [ex_datum_a; ex_datum_b] (Some true))) = false /\
   known_empty_datums (Some (mk_plist [ex_datum_a; ex_datum_b] (Some true))) = false /\
   (* the classes are narrow: duplicates in an indefinite-length list and a definite list without duplicates are inside the theorem *)
@@ -236,6 +307,21 @@ Check (eq_refl : enc_int (-18446744073709551616)%Z = [59; 255; 255; 255; 255; 25
 Example C09_bytes_premise_satisfiable :
   match build_tx idH (fst (run idH builder_new ex_ops)) with
   | Ok t => forallb (fun kv => item_wf (snd kv)) (ws_fields (tx_witness_set t)) = true
+  | _ => False
+  end.
+Proof. vm_compute. reflexivity. Qed.
+Example C09_additive_premise_satisfiable : additive idH builder_new ex_ops = true.
+Proof. reflexivity. Qed.
+Example C09_wire_premises_satisfiable :
+  let w := WAlonzo (Some [(1, [24; 42])]) (Some [128]) (Some []) (Some [[1; 2]]) None in
+  wire_canonical w = true /\ is_ok (decode_wire w) = true /\
+  wire_canonical (WAlonzo None None None (Some [[1]]) None) = false.
+Proof. repeat split; reflexivity. Qed.
+(* the judge on the bytes of the example transaction (a 32-byte stand-in for the hash, two other body fields) *)
+Definition h32 (bs : bytes) : bytes := firstn 32 (map (fun b => b mod 256) bs ++ repeat 0 32).
+Example C09_judge_example :
+  match build_tx h32 (fst (run h32 builder_new ex_ops)) with
+  | Ok t => judge_builder h32 ex_ops (tx_bytes [(0, [128]); (2, [26; 0; 1; 2; 3])] t) = Holds
   | _ => False
   end.
 Proof. vm_compute. reflexivity. Qed.
